@@ -27,7 +27,7 @@ from collections import Counter
 ROOT = os.path.dirname(os.path.dirname(os.path.abspath(__file__)))
 REPO = os.environ.get('VERIF_REPO', '/repo')
 MAX_SAMPLES = 12
-SHRINK_BUDGET = int(os.environ.get('VERIF_SHRINK_BUDGET', '400'))
+SHRINK_BUDGET = int(os.environ.get('VERIF_SHRINK_BUDGET', '150'))
 
 
 def digest(obj) -> str:
@@ -196,6 +196,8 @@ def run(pid, tier, seed):
     mod = importlib.import_module(modname)
     total = Acc()
     errors = []
+    import shutil
+    shutil.rmtree(os.path.join(ROOT, 'replays', pid), ignore_errors=True)
 
     # replay tier: every saved minimal input of earlier findings
     nreg = 0
@@ -226,6 +228,7 @@ def run(pid, tier, seed):
         pool.close()
         pool.join()
 
+    t_pool = time.time() - t0
     if errors:
         print(f'HARNESS-ERROR property={pid} ({len(errors)} shard error(s)); first:', file=sys.stderr)
         print(errors[0], file=sys.stderr)
@@ -257,6 +260,9 @@ def run(pid, tier, seed):
         print(f'  detail: {detail}')
 
     wall = time.time() - t0
+    if os.environ.get('VERIF_DEBUG'):
+        print(f'debug: pool phase {t_pool:.1f}s, shard cpu sum {sum(walls):.1f}s max {max(walls or [0]):.1f}s, '
+              f'post phase {wall - t_pool:.1f}s', file=sys.stderr)
     cov = dict(
         evaluations=total.evaluations,
         distinct_nontrivial=len(total.nontrivial),
